@@ -34,9 +34,24 @@ func accepts(strict bool, into *fix.Message, wire []byte) (ok bool, pan string) 
 	if strict {
 		err = encoding.Unmarshal(into, wire)
 	} else {
-		err = encoding.NewDefaultUnmarshaller(false).Unmarshal(into, wire)
+		err = sharedLoose.Unmarshal(into, wire)
 	}
 	return err == nil, ""
+}
+
+// Unmarshallers made once with the public constructor and used by all workers at the same time, as an application
+// that hands one unmarshaller to several sessions does.
+var sharedLoose = encoding.NewDefaultUnmarshaller(false)
+var sharedStrict = encoding.NewDefaultUnmarshaller(true)
+
+func acceptsShared(into *fix.Message, wire []byte) (ok bool, pan string) {
+	defer func() {
+		if p := recover(); p != nil {
+			pan = fmt.Sprint(p)
+			ok = false
+		}
+	}()
+	return sharedStrict.Unmarshal(into, wire) == nil, ""
 }
 
 // region names the part of the base message an offset falls into.
@@ -68,7 +83,7 @@ func regionOf(b *base, off int) string {
 
 func main() {
 	c := vk.Init("C03")
-	c.Rule("for each base message (valid, serialized by the library from generated templates/populations, every tests/fix44 type, or by the reference encoder, including messages whose content is crafted so that a CheckSum look-alike inside a value carries the byte sum of the message after one substitution) the COMPLETE single-edit neighbourhood is enumerated: all 255*len substitutions, all 256*(len-1) interior insertions, all len deletions, all len-1 proper prefixes; each variant is parsed strict and non-strict into an empty message of the right type, and (when refused there) also into a message object that holds the intact message from an earlier parse. Deciding clause: accepted => fixref.CheckFrame passes. Framing-neutral variants (a zero byte inserted into the BeginString value: changes neither the counted length nor the byte sum) are counted, not judged. distinct = (base, edit) pairs, all distinct; non-trivial = edit touches a framing field or a delimiter")
+	c.Rule("for each base message (valid, serialized by the library from generated templates/populations, every tests/fix44 type, or by the reference encoder, including messages whose content is crafted so that a CheckSum look-alike inside a value carries the byte sum of the message after one substitution) the COMPLETE single-edit neighbourhood is enumerated: all 255*len substitutions, all 256*(len-1) interior insertions, all len deletions, all len-1 proper prefixes; each variant is parsed strict and non-strict into an empty message of the right type, and (when refused there) also into a message object that holds the intact message from an earlier parse; the non-strict parses and a second strict parse of every variant go through two unmarshallers made once with NewDefaultUnmarshaller and shared by all 16 workers. Plus, per base, CheckSum values congruent to the byte sum modulo 256 (sum+256k), signed, padded, spaced or with a decimal point. Deciding clause: accepted => fixref.CheckFrame passes. Framing-neutral variants (a zero byte inserted into the BeginString value: changes neither the counted length nor the byte sum) are counted, not judged. distinct = (base, edit) pairs, all distinct; non-trivial = edit touches a framing field or a delimiter")
 	c.Assume("BeginString values of base messages contain no zero byte; base messages have one template position per tag")
 	nGen := c.Pick(24, 900)
 	nRef := c.Pick(8, 300)
@@ -177,6 +192,36 @@ func main() {
 			c.Sample(map[string]interface{}{"base": b.name, "bytes": len(b.wire), "wire": vk.Trunc(fixref.Pretty(b.wire), 300), "variants": 255*len(b.wire) + 256*(len(b.wire)-1) + len(b.wire) + len(b.wire) - 1})
 		}
 	}
+	// beyond single edits: CheckSum values that are numerically congruent or equal to the right one without being it
+	for _, b := range bases {
+		cut := bytes.LastIndexByte(b.wire[:len(b.wire)-1], 1)
+		sum, err := strconv.Atoi(string(b.wire[cut+1+len(b.ft.Sum)+1 : len(b.wire)-1]))
+		if err != nil {
+			continue
+		}
+		var vals []string
+		for k := 1; sum+256*k <= 999; k++ {
+			vals = append(vals, strconv.Itoa(sum+256*k))
+		}
+		vals = append(vals, "+"+strconv.Itoa(sum), strconv.Itoa(sum)+".0", "0"+fmt.Sprintf("%03d", sum), fmt.Sprintf("%03d ", sum), " "+fmt.Sprintf("%03d", sum)[1:])
+		if sum < 100 {
+			vals = append(vals, strconv.Itoa(sum))
+		}
+		for _, v := range vals {
+			variant := append(append([]byte(nil), b.wire[:cut+1]...), []byte(b.ft.Sum+"="+v+"\x01")...)
+			if fixref.CheckFrame(b.ft, variant) == nil {
+				continue
+			}
+			for _, strict := range []bool{true, false} {
+				ok, pan := accepts(strict, b.empty(), variant)
+				c.Count("congruent_checksum_variants", 1)
+				if pan == "" && ok {
+					mode := map[bool]string{true: "strict", false: "non-strict"}[strict]
+					c.Violate("C03/accepted-damaged/checksum-value-congruent-but-not-equal/"+mode, fmt.Sprintf("%s parser accepted a message whose CheckSum field reads %q; the byte sum is %03d: %s", mode, v, sum, vk.Trunc(fixref.Pretty(variant), 400)), map[string]interface{}{"base": b.name, "variant_hex": fmt.Sprintf("%x", variant), "seed": c.Seed})
+				}
+			}
+		}
+	}
 	kinds := []string{"substitution", "insertion", "deletion", "prefix"}
 	vk.Parallel(len(jobs), runtime.NumCPU(), func(ji int) {
 		j := jobs[ji]
@@ -232,6 +277,15 @@ func main() {
 							delete(reused, strict)
 						}
 					}
+				}
+				if strict && !valid && !neutral {
+					// the same variant through the shared strict unmarshaller (other workers use it at this very moment)
+					if ok4, pan4 := acceptsShared(b.empty(), variant); pan4 == "" && ok4 {
+						c.Violate(fmt.Sprintf("C03/accepted-damaged/shared-unmarshaller/%s/%s", kinds[j.kind], regionOf(b, j.off)),
+							fmt.Sprintf("an unmarshaller made with NewDefaultUnmarshaller(true) and used by several goroutines accepted a %s: %s (reference: %v)", edit, vk.Trunc(fixref.Pretty(variant), 500), fixref.CheckFrame(b.ft, variant)),
+							map[string]interface{}{"base": b.name, "edit": edit, "variant_hex": fmt.Sprintf("%x", variant), "seed": c.Seed})
+					}
+					c.Count("variants_also_parsed_through_a_shared_unmarshaller", 1)
 				}
 				if ok && !valid {
 					reg := regionOf(b, j.off)
